@@ -236,6 +236,169 @@ func checkExpr(r *vk.Run, c Case, class string) *vk.Fail {
 	return nil
 }
 
+// ---- one expression, several operand tuples in one render ------------------------------------
+
+// SeqCase: ONE expression over the variables p and q is evaluated several times within one render, the operands
+// changing kind from one evaluation to the next (an int pair, then a float pair, then strings ...). What an
+// operator does may depend on its operands now, not on the operands the same source expression saw before.
+type SeqCase struct {
+	Expr E           `json:"expr"` // leaves may also be "p" and "q"
+	Rows [][2]string `json:"rows"` // pool leaves supplying p and q for each evaluation
+	Mode string      `json:"mode"` // fn: let f = fn(p, q) { return EXPR }, called once per row; loop: for (row) in rows { cap(EXPR over row[0], row[1]) }
+}
+
+func (e *E) toModelWith(sub map[string]model.Expr) model.Expr {
+	if e.Leaf != "" {
+		if x, ok := sub[e.Leaf]; ok {
+			if e.Trace > 0 {
+				return model.Call{Fn: "t", Args: []model.Expr{model.Lit{V: e.Trace}, x}}
+			}
+			return x
+		}
+		return e.toModel()
+	}
+	cp := *e
+	cp.Trace = 0
+	var x model.Expr
+	switch {
+	case e.Not != nil:
+		x = model.Not{X: e.Not.toModelWith(sub)}
+	case e.Paren != nil:
+		x = model.Paren{X: e.Paren.toModelWith(sub)}
+	default:
+		x = model.Bin{Op: e.Op, L: e.L.toModelWith(sub), R: e.R.toModelWith(sub)}
+	}
+	if e.Trace > 0 {
+		x = model.Call{Fn: "t", Args: []model.Expr{model.Lit{V: e.Trace}, x}}
+	}
+	return x
+}
+
+func (e *E) validPQ() bool {
+	if e.Leaf == "p" || e.Leaf == "q" {
+		return e.Not == nil && e.Paren == nil && e.Op == ""
+	}
+	switch {
+	case e.Leaf != "":
+		return e.valid()
+	case e.Not != nil:
+		return e.Op == "" && e.Paren == nil && e.Not.validPQ()
+	case e.Paren != nil:
+		return e.Op == "" && e.Paren.validPQ()
+	}
+	ok := false
+	for _, o := range binOps {
+		ok = ok || o == e.Op
+	}
+	return ok && e.L != nil && e.R != nil && e.L.validPQ() && e.R.validPQ()
+}
+
+func (e E) toModelP() model.Expr { return e.toModel() }
+
+func leafValue(name string) interface{} {
+	switch l := leaves[name].(type) {
+	case model.Lit:
+		return l.V
+	case model.Var:
+		return data[l.Name]
+	}
+	return nil
+}
+
+func checkSeq(r *vk.Run, c SeqCase, class string) *vk.Fail {
+	defer r.Watch("seq", c)()
+	d := map[string]interface{}{}
+	for k, v := range data {
+		d[k] = v
+	}
+	var prog []model.Node
+	capOf := func(x model.Expr) model.Node {
+		return model.Code{S: model.ExprS{X: model.Call{Fn: "cap", Args: []model.Expr{x}}}}
+	}
+	switch c.Mode {
+	case "fn":
+		body := c.Expr.toModelWith(map[string]model.Expr{"p": model.Var{Name: "p"}, "q": model.Var{Name: "q"}})
+		prog = append(prog, model.Code{S: model.LetS{Name: "f", X: model.FnLit{Params: []string{"p", "q"}, Body: []model.Node{model.Code{S: model.ReturnS{X: body}}}}}})
+		for _, row := range c.Rows {
+			prog = append(prog, capOf(model.Call{Fn: "f", Args: []model.Expr{leaves[row[0]], leaves[row[1]]}}))
+		}
+	case "loop":
+		var rows []interface{}
+		for _, row := range c.Rows {
+			rows = append(rows, []interface{}{leafValue(row[0]), leafValue(row[1])})
+		}
+		d["rows"] = rows
+		body := c.Expr.toModelWith(map[string]model.Expr{
+			"p": model.Idx{X: model.Var{Name: "row"}, I: model.Lit{V: 0}}, "q": model.Idx{X: model.Var{Name: "row"}, I: model.Lit{V: 1}}})
+		prog = append(prog, model.Code{S: model.ForS{For: &model.For{Val: "row", Iter: model.Var{Name: "rows"}, Body: []model.Node{capOf(body)}}}})
+	default:
+		return &vk.Fail{Kind: "decode", Msg: "unknown mode"}
+	}
+	type run struct {
+		vals  []interface{}
+		trace []int
+	}
+	mk := func(o *run) map[string]model.Helper {
+		return map[string]model.Helper{
+			"t":   func(a []interface{}) (interface{}, error) { o.trace = append(o.trace, a[0].(int)); return a[1], nil },
+			"cap": func(a []interface{}) (interface{}, error) { o.vals = append(o.vals, a[0]); return nil, nil },
+		}
+	}
+	var want, got run
+	ref := model.Run(prog, d, mk(&want))
+	if ref.Unspec != "" {
+		r.Exclude("unspecified")
+		return nil
+	}
+	src := model.Printer{}.Nodes(prog)
+	fail := func(f string, a ...interface{}) *vk.Fail {
+		return &vk.Fail{Kind: "seq", Case: c, Msg: fmt.Sprintf("%s  rows %v: ", src, c.Rows) + fmt.Sprintf(f, a...)}
+	}
+	d2 := map[string]interface{}{}
+	for k, v := range d {
+		d2[k] = v
+	}
+	res := vk.Safe(func() (string, error) { return plush.Render(src, model.Context(d2, mk(&got))) })
+	kinds := map[string]bool{}
+	for _, v := range want.vals {
+		kinds[fmt.Sprintf("%T", v)] = true
+	}
+	nt := ""
+	if len(c.Rows) >= 2 {
+		nt = fmt.Sprintf("SEQ|%s|%v", src, c.Rows)
+	}
+	r.Count(nt, fmt.Sprintf("%s/%s/kinds=%d", class, c.Mode, len(kinds)))
+	if nt != "" {
+		r.Sample(func() interface{} {
+			return map[string]interface{}{"template": src, "rows": c.Rows, "reference_values": fmt.Sprint(want.vals), "reference_error": ref.Err}
+		})
+	}
+	if res.Panicked() {
+		return fail("%s", res)
+	}
+	if ref.Err != "" {
+		if res.Err == nil {
+			return fail("reference says evaluation %d is an error (%s), render succeeded with values %v", len(want.vals)+1, ref.Err, got.vals)
+		}
+		return nil
+	}
+	if res.Err != nil {
+		return fail("reference values %v, render failed: %v", want.vals, res.Err)
+	}
+	if len(got.vals) != len(want.vals) {
+		return fail("%d values captured, reference says %d", len(got.vals), len(want.vals))
+	}
+	for i := range want.vals {
+		if !sameVal(got.vals[i], want.vals[i]) {
+			return fail("evaluation %d gave %s, reference says %s", i+1, model.Describe(got.vals[i]), model.Describe(want.vals[i]))
+		}
+	}
+	if !reflect.DeepEqual(got.trace, want.trace) {
+		return fail("operands evaluated in order %v, reference says %v", got.trace, want.trace)
+	}
+	return nil
+}
+
 // ---- generators ----------------------------------------------------------------
 
 func leaf(name string) *E { return &E{Leaf: name} }
@@ -326,7 +489,7 @@ func (g *gen) typed(kind string, d int) *E {
 	return bin(rapid.SampledFrom(binOps).Draw(t, "op"), g.typed("any", d-1), g.typed("any", d-1))
 }
 
-const rule = "expression trees over a pool of int/float/string/bool/nil leaves (literals and variables, incl. negative numbers, a 2^53+1 integer, an unknown identifier) and the operators + - * / < <= > >= == != ~= && || ! and parentheses. (E) every tree of depth <=2 - all leaf pairs x 13 operators, !leaf, and both association shapes (a op1 b) op2 c / a op1 (b op2 c) over a 12-leaf (quick: 7-leaf) pool; (R) type-directed random trees to depth 5 in which every node is specified, plus deliberately ill-typed nodes that must be errors, with random redundant parentheses and operands wrapped in a recording helper t(i, x). Every tree is printed with the minimal parentheses implied by the stated precedence/left-associativity and fully parenthesised; both spellings are rendered as <% cap(EXPR) %> and the captured typed Go value, the helper invocation order (left-to-right, short-circuit) and error-ness must equal the reference evaluator's. Trees whose meaning the statement does not fix (bool==non-bool, string<non-string, string+nil, int overflow, float Inf/NaN, ~= on non-strings) are counted under excluded:unspecified and not asserted. Non-trivial = depth >= 2 or an error outcome; distinct by minimal spelling."
+const rule = "expression trees over a pool of int/float/string/bool/nil leaves (literals and variables, incl. negative numbers, a 2^53+1 integer, an unknown identifier) and the operators + - * / < <= > >= == != ~= && || ! and parentheses. (E) every tree of depth <=2 - all leaf pairs x 13 operators, !leaf, and both association shapes (a op1 b) op2 c / a op1 (b op2 c) over a 12-leaf (quick: 7-leaf) pool; (R) type-directed random trees to depth 5 in which every node is specified, plus deliberately ill-typed nodes that must be errors, with random redundant parentheses and operands wrapped in a recording helper t(i, x). Every tree is printed with the minimal parentheses implied by the stated precedence/left-associativity and fully parenthesised; both spellings are rendered as <% cap(EXPR) %> and the captured typed Go value, the helper invocation order (left-to-right, short-circuit) and error-ness must equal the reference evaluator's. SEQUENCES: one expression over the variables p and q is evaluated 2-4 times within one render (as the body of a template function called once per operand pair, or inside a loop over the pairs), the operand kinds changing from one evaluation to the next: (S1) p OP q for all 13 operators x every ordered pair (A, B) of 21 operand pairs that have a value, evaluated A, B, A, and every value pair followed by every error pair; (SR) random shapes to depth 3 over p, q and literals with random rows; every captured value and the operand evaluation order must equal the reference evaluator's. Trees whose meaning the statement does not fix (bool==non-bool, string<non-string, string+nil, int overflow, float Inf/NaN, ~= on non-strings) are counted under excluded:unspecified and not asserted. Non-trivial = depth >= 2 or an error outcome; distinct by minimal spelling."
 
 func setup(t *testing.T) *vk.Run {
 	r := vk.Start(t, "C06", rule,
@@ -341,6 +504,23 @@ func setup(t *testing.T) *vk.Run {
 			return &vk.Fail{Kind: "decode", Msg: "malformed expression"}
 		}
 		return checkExpr(r, c, "replay")
+	})
+	r.Replayer("seq", func(raw json.RawMessage) *vk.Fail {
+		var c SeqCase
+		if f := vk.Decode(raw, &c); f != nil {
+			return f
+		}
+		if !c.Expr.validPQ() || (c.Mode != "fn" && c.Mode != "loop") {
+			return &vk.Fail{Kind: "decode", Msg: "malformed sequence case"}
+		}
+		for _, row := range c.Rows {
+			for _, l := range row {
+				if _, ok := leaves[l]; !ok {
+					return &vk.Fail{Kind: "decode", Msg: "unknown leaf " + l}
+				}
+			}
+		}
+		return checkSeq(r, c, "replay")
 	})
 	return r
 }
@@ -429,6 +609,91 @@ func TestProp(t *testing.T) {
 		kind := rapid.SampledFrom([]string{"int", "float", "string", "bool", "bool", "any"}).Draw(t, "kind")
 		e := g.typed(kind, rapid.IntRange(1, 5).Draw(t, "depth"))
 		return checkExpr(r, Case{Expr: *e}, "R/"+kind)
+	})
+	seqPhases(r)
+}
+
+// seqGroups: operand pairs of one kind each; a sequence walks through several groups
+var seqGroups = [][]string{{"2", "7", "n3", "0"}, {"1.5", "2.0", "nf", "0.0"}, {`"a"`, `"b2"`, `""`, `"^a"`}, {"true", "false"}, {"nil"}}
+
+func seqPhases(r *vk.Run) {
+	// E: p OP q for every operator. The operand pairs are split by the reference into those with a value and those
+	// that are errors; every ordered pair (A, B) of value pairs is evaluated A, B, A, and every value pair is
+	// followed by every error pair (an operator that worked for the operands before still fails for these).
+	var n int64
+	reps := [][2]string{{"2", "7"}, {"7", "2"}, {"n3", "0"}, {"1.5", "2.0"}, {"nf", "1.5"}, {`"a"`, `"b2"`}, {`"b2"`, `"a"`}, {`"a"`, `"a"`}, {`""`, `"^a"`},
+		{"true", "false"}, {"false", "false"}, {"nil", "nil"}, {"2", "1.5"}, {"1.5", "2"}, {`"a"`, "2"}, {`"a"`, "true"}, {"7", "0"}, {"2", "nil"}, {"true", "nil"}, {"2", `"a"`}, {"true", "2"}}
+	for _, op := range binOps {
+		var ok, bad [][2]string
+		for _, row := range reps {
+			o, unspec := runModel(E{Op: op, L: leaf(row[0]), R: leaf(row[1])}.toModelP())
+			switch {
+			case unspec != "":
+			case o.isErr:
+				bad = append(bad, row)
+			default:
+				ok = append(ok, row)
+			}
+		}
+		for _, mode := range []string{"fn", "loop"} {
+			usable := func(rows ...[2]string) bool {
+				for _, row := range rows {
+					if mode == "loop" && (row[0] == "nil" || row[1] == "nil") {
+						return false // a nil element of a data row is fine, but keep the two modes' tables identical in meaning: nil enters through arguments only
+					}
+				}
+				return true
+			}
+			for i := range ok {
+				for j := range ok {
+					if i != j && usable(ok[i], ok[j]) {
+						if r.Mine(n) {
+							r.Check(checkSeq(r, SeqCase{Expr: E{Op: op, L: leaf("p"), R: leaf("q")}, Rows: [][2]string{ok[i], ok[j], ok[i]}, Mode: mode}, "S1"))
+						}
+						n++
+					}
+				}
+				for _, e := range bad {
+					if usable(ok[i], e) {
+						if r.Mine(n) {
+							r.Check(checkSeq(r, SeqCase{Expr: E{Op: op, L: leaf("p"), R: leaf("q")}, Rows: [][2]string{ok[i], e}, Mode: mode}, "S1err"))
+						}
+						n++
+					}
+				}
+			}
+		}
+	}
+	r.Subspace("sequences: p OP q for 13 operators x {ordered pairs (A, B) of operand pairs with a value, evaluated A, B, A; value pair then error pair} over 21 operand pairs x {function, loop}", n, true)
+	r.Rapid("sequences", r.Pick(4000, 60000), func(t *rapid.T) *vk.Fail {
+		g := &gen{t: t}
+		var shape func(d int) *E
+		shape = func(d int) *E {
+			if d <= 0 || rapid.IntRange(0, 3).Draw(t, "stop") == 0 {
+				return g.wrap(leaf(rapid.SampledFrom([]string{"p", "q", "p", "q", "2", "1.5", `"a"`, "true", "nil", "unk"}).Draw(t, "leaf")))
+			}
+			if rapid.IntRange(0, 7).Draw(t, "not") == 0 {
+				return g.wrap(&E{Not: shape(d - 1)})
+			}
+			return g.wrap(&E{Op: rapid.SampledFrom(binOps).Draw(t, "op"), L: shape(d - 1), R: shape(d - 1)})
+		}
+		c := SeqCase{Expr: *shape(rapid.IntRange(1, 3).Draw(t, "depth")), Mode: rapid.SampledFrom([]string{"fn", "loop"}).Draw(t, "mode")}
+		homog := rapid.IntRange(0, 3).Draw(t, "homogeneous") > 0
+		for i, n := 0, rapid.IntRange(2, 4).Draw(t, "rows"); i < n; i++ {
+			pool := allLeaves
+			if homog {
+				pool = rapid.SampledFrom(seqGroups[:4]).Draw(t, "group")
+			}
+			var row [2]string
+			for k := range row {
+				row[k] = rapid.SampledFrom(pool).Draw(t, "operand")
+				if row[k] == "unk" || (c.Mode == "loop" && row[k] == "nil") {
+					row[k] = "2"
+				}
+			}
+			c.Rows = append(c.Rows, row)
+		}
+		return checkSeq(r, c, "SR")
 	})
 }
 
